@@ -22,6 +22,8 @@ class Verifier(Exec):
         self.callees = set()
         self.specfun_axioms = set()
         self.pending_specfun = []
+        self.unfolding = 0
+        self.unfolded = set()
 
     # ------------------------------------------------------------------ misc helpers used by SpecEval
     def rune_tid(self):
@@ -171,14 +173,17 @@ class Verifier(Exec):
             return s
         raise SpecError('unknown type %r in spec' % s)
 
-    def snapshot(self, st, v, tid=None):
+    def snapshot(self, st, v, tid=None, in_struct=False):
         """heap-independent logical value"""
         if isinstance(v, T) or isinstance(v, (SeqV, SnapV)):
             return v
         if isinstance(v, SliceV):
             if self.is_scalar(v.elem):
                 h = self.heap_get(st, self.hs_name(v.elem), self.hs_sort(v.elem))
-                return SeqV(select(h, v.arr), v.off, v.len, v.elem)
+                alt = None
+                if in_struct and self.elem_key(v.elem) == 'uint8':
+                    alt = select(self.heap_get(st, 'HS:int32', arr(ARR_II)), v.arr)
+                return SeqV(select(h, v.arr), v.off, v.len, v.elem, alt)
             raise Unsupported('snapshot of slice of aggregates')
         if isinstance(v, StrV):
             h = self.heap_get(st, 'HS:uint8', arr(ARR_II))
@@ -193,7 +198,7 @@ class Verifier(Exec):
         if isinstance(v, Opaque):
             return v.term
         if isinstance(v, StructV):
-            return SnapV(v.tid, dict((k, self.snapshot(st, x)) for k, x in v.f.items()))
+            return SnapV(v.tid, dict((k, self.snapshot(st, x, None, True)) for k, x in v.f.items()))
         if isinstance(v, ArrV):
             return v
         raise Unsupported('snapshot of %r' % (v,))
@@ -203,6 +208,8 @@ class Verifier(Exec):
             out.append(v)
         elif isinstance(v, SeqV):
             out.extend([v.a, v.off, v.len])
+            if v.alt is not None:
+                out.append(v.alt)
         elif isinstance(v, SnapV):
             for f in self.struct_fields(v.tid):
                 self.flatten(v.f[f['name']], out)
@@ -213,7 +220,7 @@ class Verifier(Exec):
             raise Unsupported('flatten %r' % (v,))
         return out
 
-    def formal(self, prefix, tid):
+    def formal(self, prefix, tid, in_struct=False):
         """bound logical value of type tid for a spec function definition"""
         k = self.kind(tid)
         if self.is_string(tid):
@@ -226,9 +233,10 @@ class Verifier(Exec):
             return const(prefix, INT)
         if k == 'slice':
             e = self.U(tid)['elem']
-            return SeqV(const(prefix + '.a', arr(self.sort_of(e))), const(prefix + '.o', INT), const(prefix + '.n', INT), e)
+            alt = const(prefix + '.r', ARR_II) if (in_struct and self.elem_key(e) == 'uint8') else None
+            return SeqV(const(prefix + '.a', arr(self.sort_of(e))), const(prefix + '.o', INT), const(prefix + '.n', INT), e, alt)
         if k == 'struct':
-            return SnapV(tid, dict((f['name'], self.formal(prefix + '.' + f['name'], f['type'])) for f in self.struct_fields(tid)))
+            return SnapV(tid, dict((f['name'], self.formal(prefix + '.' + f['name'], f['type'], True)) for f in self.struct_fields(tid)))
         if k == 'array':
             u = self.U(tid)
             return ArrV(tid, [self.formal('%s.%d' % (prefix, i), u['elem']) for i in range(u['len'])], u['elem'])
@@ -240,13 +248,36 @@ class Verifier(Exec):
         recursive = sf.decreases is not None or sf.body is None or sf.opaque
         if not recursive:
             # macro expansion in the caller's state
-            env = dict((p[0], a) for p, a in zip(sf.params, args))
+            env = {}
+            lvars, lvals = [], []
+            for p, a in zip(sf.params, args):
+                if isinstance(a, T) and a.op not in ('const', 'int', 'bool') and sf.body.count(p[0]) > 1:
+                    n = self.ctx.counter.get('let', 0)
+                    self.ctx.counter['let'] = n + 1
+                    lv = const('$%s%d' % (p[0], n), a.sort)
+                    lvars.append(lv)
+                    lvals.append(a)
+                    env[p[0]] = lv
+                else:
+                    env[p[0]] = a
             sub_ = SpecEval(self, ev.st, env, ev.old, 'spec func ' + sf.name)
             sub_.bound = dict(ev.bound)
             for p in sf.params:
                 sub_.bound.pop(p[0], None)
-            return sub_.ev(sf.expr)
-        # uninterpreted (with defining axiom if a body is given)
+            r = sub_.ev(sf.expr)
+            if lvars:
+                if isinstance(r, T):
+                    return let(lvars, lvals, r)
+                # non-scalar result: fall back to plain substitution
+                env = dict((p[0], a) for p, a in zip(sf.params, args))
+                sub_ = SpecEval(self, ev.st, env, ev.old, 'spec func ' + sf.name)
+                sub_.bound = dict(ev.bound)
+                for p in sf.params:
+                    sub_.bound.pop(p[0], None)
+                return sub_.ev(sf.expr)
+            return r
+        # uninterpreted; recursive definitions are unfolded once at every ground occurrence (no quantified
+        # defining axiom: that caused matching loops on large bodies)
         snaps = [self.snapshot(ev.st, a) for a in args]
         flat = []
         for s_ in snaps:
@@ -255,11 +286,28 @@ class Verifier(Exec):
         fname = 'sf:' + sf.name
         if fname not in self.ctx.declared:
             self.ctx.declare_fun(fname, [t.sort for t in flat], rsort)
-            if sf.body is not None:
-                self.pending_specfun.append(sf)
         r = app(fname, flat, rsort)
-        self.flush_specfun_axioms(ev.st)
+        if sf.body is not None and self.unfolding == 0 and r not in self.unfolded and not self.has_bound(flat):
+            self.unfolded.add(r)
+            self.unfolding += 1
+            try:
+                env = dict((p[0], s_) for p, s_ in zip(sf.params, snaps))
+                sub_ = SpecEval(self, ev.st, env, None, 'spec func ' + sf.name)
+                body = sub_.ev(sf.expr)
+            finally:
+                self.unfolding -= 1
+            if not isinstance(body, T):
+                raise SpecError('spec func %s must return a scalar' % sf.name)
+            self.ctx.assume(eq(r, body))
         return r
+
+    def has_bound(self, terms):
+        seen = set()
+        for t in terms:
+            for x in subterms(t, seen):
+                if x.op == 'const' and ('?' in x.val or x.val.startswith('$') or x.val.endswith('!') and len(x.val) <= 3):
+                    return True
+        return False
 
     def flush_specfun_axioms(self, st):
         while self.pending_specfun:
@@ -1449,7 +1497,7 @@ class Verifier(Exec):
             c.heap_bound[new.val] = st.alloc
             if name.startswith(('HS:', 'INIT:')):
                 a, k = const('a!', INT), const('k!', INT)
-                c.assume(forall([a, k], implies(lt(a, base), eq(select(select(new, a), k), select(select(old, a), k))), [select(select(new, a), k)]))
+                c.assume(forall([a], implies(lt(a, base), eq(select(new, a), select(old, a))), [select(new, a)]))
                 # negative (derived) addresses: sub-objects keep contents if their root is old. approximated: a < base covers derived (<0) too.
             else:
                 p = const('p!', INT)
@@ -1521,3 +1569,84 @@ class Verifier(Exec):
             ev = SpecEval(self, st, env, self.old, cl.src)
             t = ev.boolean(cl.expr)
             self.oblige(st, 'post', '%d@ret%d' % (i, idx), t, {'clause': cl.text, 'results': vals}, cl.props)
+
+
+def lemma_function(pkg, name):
+    return {'name': 'lemma.' + name, 'pkg': pkg, 'short': name, 'params': [], 'freevars': [], 'results': [],
+            'blocks': [{'index': 0, 'comment': 'entry', 'preds': [], 'succs': [], 'instrs': []}], 'loops': [], 'file': '', 'line': 0}
+
+
+class LemmaVerifier(Verifier):
+    """Proves a lemma about spec functions: requires ==> ensures, optionally by induction on an int parameter
+    (hypothesis: the lemma for v-1 with the other parameters universally quantified is NOT assumed; only the
+    instance with the same other parameters - plus any explicit `use` of other lemmas)."""
+
+    def __init__(self, prog, specs, lem, pkg, resolver=None):
+        fname = 'lemma.' + lem.name
+        prog.funcs[fname] = lemma_function(pkg, lem.name)
+        try:
+            Verifier.__init__(self, prog, specs, fname, None, resolver)
+        finally:
+            pass
+        self.lem = lem
+        self.spec = None
+
+    def run(self):
+        c = self.ctx
+        lem = self.lem
+        st = State()
+        self.alloc0 = c.declare_const('alloc0', INT)
+        st.alloc = self.alloc0
+        self.old = State()
+        for ax in self.specs.axioms:
+            try:
+                c.assume(self.eval_clause(ax, st, {}, None, 'axiom'))
+                self.trusted.add('axiom: ' + ax.text)
+            except SpecError:
+                pass
+        for gi in self.specs.globalinvs:
+            if gi.pkg == self.fn['pkg']:
+                c.assume(self.eval_clause(gi, st, {}, None, 'globalinv'))
+        env = {}
+        for pn, pt in lem.params:
+            env[pn] = self.formal('L:%s.%s' % (lem.name, pn), self.parse_type(pt))
+            self.declare_formal(env[pn])
+            self.assume_formal_valid(env[pn])
+        self.cur_line = 0
+        self.cur_detail = 'lemma'
+        self.nreq = len(lem.requires)
+        for cl in lem.requires:
+            c.assume(self.eval_clause(cl, st, env, None))
+        self.entry_nassert = len(c.asserts)
+        if lem.induction:
+            v = lem.induction
+            if v not in env or not isinstance(env[v], T):
+                raise SpecError('%s: induction variable %s must be an int parameter' % (lem.src, v))
+            self.oblige(st, 'wf', lem.name, ge(env[v], I(-1000000)), {'clause': 'induction variable bounded below'}, lem.props)
+            env2 = dict(env)
+            env2[v] = sub(env[v], ONE)
+            pre = and_(*[self.eval_clause(cl, st, env2, None) for cl in lem.requires])
+            post = and_(*[self.eval_clause(cl, st, env2, None) for cl in lem.ensures])
+            c.assume(implies(pre, post))
+        for u in lem.uses:
+            self.apply_use(u, st, env)
+        for i, cl in enumerate(lem.ensures):
+            t = self.eval_clause(cl, st, env, None)
+            self.oblige(st, 'lemma', '%s.%d' % (lem.name, i), t, {'clause': cl.text}, lem.props or cl.props)
+        self.returns.append((TRUE, 0))
+        return c
+
+    def declare_formal(self, v):
+        out = []
+        self.flatten(v, out) if not isinstance(v, T) else out.append(v)
+        for t in out:
+            if t.op == 'const':
+                self.ctx.declare_const(t.val, t.sort)
+
+    def assume_formal_valid(self, v):
+        c = self.ctx
+        if isinstance(v, SeqV):
+            c.assume(and_(le(ZERO, v.off), le(ZERO, v.len)))
+        elif isinstance(v, SnapV):
+            for x in v.f.values():
+                self.assume_formal_valid(x)
